@@ -412,9 +412,20 @@ def check_spy(case, obs):
         elif data in big:
             pass
         else:
-            return "message %d (%d bytes) on the spy channel is neither whole lines within %d bytes nor an oversized metric alone" % (k, len(data), cap)
+            return "frame: message %d (%d bytes) on the spy channel is neither whole lines within %d bytes nor an oversized metric alone" % (k, len(data), cap)
     if "p" in r:
         return "panic"
+    # results: Ok carries the metric's length (flush: 0); an oversized metric whose emit returned Ok was written,
+    # alone, during that emit (c07_results / c06_own_emit) - so it must be among the messages, once
+    res = r[2:].split(",") if r[2:] else []
+    for j, (op, x) in enumerate(zip(ops, res)):
+        if x.startswith("k"):
+            want = len(op[1]) if op[0] == "E" else 0
+            if int(x[1:]) != want:
+                return "result: operation %d returned Ok(%s), expected Ok(%d)" % (j, x[1:], want)
+            if op[0] == "E" and len(op[1]) + 1 > cap and msgs.count(op[1]) < sum(
+                    1 for o2, x2 in zip(ops, res) if o2 == op and x2.startswith("k")):
+                return "result: operation %d: an oversized metric was acknowledged with Ok but never reached the channel" % j
     return None
 
 
@@ -489,7 +500,15 @@ def run_writer_check(prop, tier, seed, faults, design_ref):
         rep.violation_input("%s (%d failing cases; smallest shown)" % (v, len(bad)),
                             {"bin": "mlw", "case": c, "implementation": o, "clause": v,
                              "how": "build/target/release/harness mlw <file with the case line>"})
-    bad_spy = [(len(c), c, o, v) for c, o, v in ((c, o, check_spy(c, o)) for c, o in zip(spy, impl_spy)) if v]
+    # which of the spy-family clauses belong to this property: framing and panics to all; results / conservation to
+    # C06 (fault-free: unbounded channel only) and C07
+    def spy_relevant(c, v):
+        if not v or v.startswith("frame") or v == "panic":
+            return bool(v)
+        if prop == "C07":
+            return True
+        return prop == "C06" and c.split()[2] == "u"
+    bad_spy = [(len(c), c, o, v) for c, o, v in ((c, o, check_spy(c, o)) for c, o in zip(spy, impl_spy)) if spy_relevant(c, v)]
     if bad_spy and not bad:
         bad_spy.sort()
         _, c, o, v = bad_spy[0]
@@ -599,7 +618,9 @@ ASSUMPTIONS = [
 
 
 def check_C05(tier, seed):
-    return run_writer_check("C05", tier, seed, False, "DESIGN.md 8.C05")
+    # the framing theorem (c05_frame) is for every fault script, so the tie is exercised under faults too (seed C05-2:
+    # a framing failure that needs a failed flush was invisible to the fault-free run)
+    return run_writer_check("C05", tier, seed, True, "DESIGN.md 8.C05")
 
 
 def check_C06(tier, seed):
